@@ -6,10 +6,12 @@ From AL Require Import Base.CaseLib C16.Model C16.Spec C16.Proofs C16.Proofs_Ind
 Import ListNotations.
 Open Scope Qc_scope.
 
-(* Main theorem: for every history (any length, any interleaving of add() and
+(* Round 3: every statement about the mixer holds for ANY value type M with ANY binary operation as its addition
+   (no commutativity / associativity assumed): rationals, str / tuple concatenation, IEEE floats (Check.v).
+   Main theorem: for every history (any length, any interleaving of add() and
    next(), any rational deltas and data) the line-by-line model of Streamix
    produces exactly the outputs of the closed-form specification. *)
-Theorem C16_run_eq_spec_run : forall keep zero ops,
+Theorem C16_run_eq_spec_run : forall (M : addable) keep (zero : M) ops,
   run keep zero init ops = spec_run keep zero [] 0 false ops.
 Proof. exact run_eq_spec_run. Qed.
 Print Assumptions C16_run_eq_spec_run.
@@ -19,22 +21,22 @@ Proof. exact crun_eq_cspec_run. Qed.
 Print Assumptions C16_crun_eq_cspec_run.
 
 (* add(): a negative delta is rejected (ValueError), anything else is enqueued *)
-Theorem C16_negative_delta_rejected : forall s d data, d < 0 -> add s d data = None.
+Theorem C16_negative_delta_rejected : forall (M : addable) (s : st M) d data, d < 0 -> add s d data = None.
 Proof. exact negative_delta_rejected. Qed.
 Print Assumptions C16_negative_delta_rejected.
 
-Theorem C16_nonnegative_delta_accepted : forall s d data, 0 <= d ->
+Theorem C16_nonnegative_delta_accepted : forall (M : addable) (s : st M) d data, 0 <= d ->
   add s d data = Some (ST (count s) (pending s ++ [(d, data)]) (playing s) (fin s)).
 Proof. exact nonnegative_delta_accepted. Qed.
 Print Assumptions C16_nonnegative_delta_accepted.
 
-Theorem C16_step_add_rejected_iff : forall keep zero s d data,
+Theorem C16_step_add_rejected_iff : forall (M : addable) keep (zero : M) s d data,
   snd (step keep zero s (Add d data)) = ORejected <-> d < 0.
 Proof. exact step_add_rejected_iff. Qed.
 Print Assumptions C16_step_add_rejected_iff.
 
 (* an event never starts before the sample at which it was added *)
-Theorem C16_late_add_never_early : forall evs e sd,
+Theorem C16_late_add_never_early : forall (M : addable) (evs : list (event M)) e sd,
   In (e, sd) (combine evs (starts evs)) -> (e_added e <= fst sd)%Z.
 Proof. exact late_add_never_early. Qed.
 Print Assumptions C16_late_add_never_early.
@@ -42,7 +44,7 @@ Print Assumptions C16_late_add_never_early.
 (* an event that is not added late starts at S = ceil (T - 1/2), T the sum of
    the deltas up to and including its own; S is the sample nearest to T (ties
    go down): T - 1/2 <= S < T + 1/2 *)
-Theorem C16_start_is_nearest_sample : forall pre e post,
+Theorem C16_start_is_nearest_sample : forall (M : addable) (pre : list (event M)) e post,
   (e_added e <= qceil (fold_right (fun x acc => (e_delta x + acc)%Qc) 0%Qc (pre ++ [e]) - half))%Z ->
   let T := fold_right (fun x acc => e_delta x + acc) 0 (pre ++ [e]) in
   let S := qceil (T - half) in
@@ -52,7 +54,7 @@ Proof. exact start_is_nearest_sample. Qed.
 Print Assumptions C16_start_is_nearest_sample.
 
 (* in particular every event added before the first output (e_added = 0) *)
-Theorem C16_start_is_nearest_sample_initial : forall pre e post,
+Theorem C16_start_is_nearest_sample_initial : forall (M : addable) (pre : list (event M)) e post,
   Forall (fun x => 0 <= e_delta x) (pre ++ [e]) -> e_added e = 0%Z ->
   nth_error (starts (pre ++ e :: post)) (length pre)
   = Some (qceil (fold_right (fun x acc => e_delta x + acc) 0 (pre ++ [e]) - half), e_data e).
@@ -60,12 +62,12 @@ Proof. exact start_is_nearest_sample_initial. Qed.
 Print Assumptions C16_start_is_nearest_sample_initial.
 
 (* keep=True: the mixer never raises StopIteration *)
-Theorem C16_keep_never_stops_spec : forall ops zero evs n,
+Theorem C16_keep_never_stops_spec : forall (M : addable) (ops : list (op M)) zero evs n,
   ~ In OStop (spec_run true zero evs n false ops).
 Proof. exact keep_never_stops_spec. Qed.
 Print Assumptions C16_keep_never_stops_spec.
 
-Theorem C16_keep_never_stops : forall zero ops, ~ In OStop (run true zero init ops).
+Theorem C16_keep_never_stops : forall (M : addable) (zero : M) ops, ~ In OStop (run true zero init ops).
 Proof. exact keep_never_stops. Qed.
 Print Assumptions C16_keep_never_stops.
 
@@ -83,11 +85,11 @@ Print Assumptions C16_control_stream_last_value.
 (* Non-vacuity: two overlapping events, fractional deltas (3/2, 1/2), an add()
    after a next(), a rejected add(), the stop and an add() after the stop.
    Starts: 0, ceil(3/2 - 1/2) = 1, max (ceil(2 - 1/2)) 1 = 2. *)
-Definition C16_example_ops : list op :=
+Definition C16_example_ops : list (op Qc_addable) :=
   [Add 0 [qc 1 1; qc 2 1; qc 3 1]; Add (qc 3 2) [qc 10 1; qc 20 1]; Next;
    Add (qc 1 2) [qc 100 1]; Add (qc (-1) 1) [qc 5 1]; Next; Next; Next;
    Add 0 [qc 7 1]; Next].
-Definition C16_example_out : list out :=
+Definition C16_example_out : list (out Qc_addable) :=
   [OAdded; OAdded; OItem (qc 1 1); OAdded; ORejected; OItem (qc 12 1);
    OItem (qc 123 1); OStop; OAdded; OStop].
 Example C16_example_model : run false 0 init C16_example_ops = C16_example_out.
@@ -100,7 +102,7 @@ Print Assumptions C16_example_spec.
 (* Round 2: objects are independent.  Two mixers (any keep / zero each) operated in an arbitrary interleaving of
    add() and next() calls: what each one answers is the closed form of its OWN sub-history; likewise two control
    streams.  (The harness families mixes / ctls compare the real objects, 2-3 alive at once, against exactly this.) *)
-Theorem C16_mixers_calls_independent : forall ka za kb zb ops,
+Theorem C16_mixers_calls_independent : forall (M : addable) ka (za : M) kb zb ops,
   on_side SideA (run2 ka za kb zb init init ops) = spec_run ka za [] 0 false (on_side SideA ops) /\
   on_side SideB (run2 ka za kb zb init init ops) = spec_run kb zb [] 0 false (on_side SideB ops).
 Proof. exact run2_independent_spec. Qed.
@@ -134,3 +136,17 @@ Example C16_example_control_none :
   = [INone; IZ 5; INone; INone; IQ (qc 1 2)].
 Proof. vm_compute. split; reflexivity. Qed.
 Print Assumptions C16_example_control_none.
+
+(* Round 3, non-vacuity of the generalisation at a NON-commutative addition (concatenation of sequences, as for a
+   str / tuple zero): three events overlap at sample 1; the output is zero, then the events in the order they were
+   added - [0] ++ [12] ++ [21] ++ [31], not any other order. *)
+Definition C16_SeqM : addable := Addable (list Z) (@app Z).
+Definition C16_example_order_ops : list (op C16_SeqM) :=
+  [Add 0 ([[11]; [12]]%Z : list C16_SeqM); Add (qc 1 1) ([[21]]%Z : list C16_SeqM);
+   Add 0 ([[31]; [32]]%Z : list C16_SeqM); Next; Next; Next; Next].
+Example C16_example_order :
+  run false ([0]%Z : C16_SeqM) init C16_example_order_ops
+  = [OAdded; OAdded; OAdded; OItem ([0; 11]%Z : C16_SeqM); OItem ([0; 12; 21; 31]%Z : C16_SeqM);
+     OItem ([0; 32]%Z : C16_SeqM); OStop].
+Proof. vm_compute. reflexivity. Qed.
+Print Assumptions C16_example_order.
